@@ -139,11 +139,11 @@ const (
 )
 
 type sanEntry struct {
-	state  int8
-	getPC  [6]uintptr
-	putPC  [6]uintptr
-	acqID  uint64
-	buf    []byte
+	state int8
+	getPC [6]uintptr
+	putPC [6]uintptr
+	acqID uint64
+	buf   []byte
 }
 
 type poolSanitizer struct {
@@ -154,9 +154,9 @@ type poolSanitizer struct {
 	acq        uint64
 
 	gets, puts, adopted, verified atomic.Int64
-	doubleRecycle, writeAfter      atomic.Int64
-	maxOwned                        int
-	owned                           int
+	doubleRecycle, writeAfter     atomic.Int64
+	maxOwned                      int
+	owned                         int
 }
 
 var san = &poolSanitizer{entries: map[*byte]*sanEntry{}}
